@@ -34,6 +34,12 @@ def check(ctx):
   f = prog.func('scales/core.py', 'ClientProxyBuilder._BuildServiceProxy')
   c20.r2(ctx, f)
   c14.r3(ctx)
+  from .. import wire
+  ser = prog.func('scales/thrift/serializer.py', 'MessageSerializer.SerializeThriftCall')
+  for rel, q in ((TS, 'ThriftSerializerSink.AsyncProcessRequest'), (TM, 'ThriftMuxMessageSerializerSink.AsyncProcessRequest')):
+    producer = prog.func(rel, q)
+    helpers = [ser] + [g for g in prog.all_funcs if g.module.rel == 'scales/thriftmux/serializer.py' and g.name.startswith(('_Marshal', 'Marshal', '_WriteContext'))]
+    wire.fresh_stream_rules(ctx, 'C02.R1', producer, helpers)
   r2(ctx)
   r3(ctx)
   r4(ctx)
